@@ -222,7 +222,9 @@ def gen_query(rng, rows):
     count = rng.random() < 0.2
     groups = rng.sample(GROUPS, rng.choice([0, 0, 1, 1, 2, 3, 4]))
     orders = [rng.choice(ORDERS) for _ in range(rng.choice([0, 1, 1, 2, 3, 4]))] if rng.random() < 0.8 else None
-    where = rng.choice(["o | x | ~ | < | > | -", "o | -", "- | x", "o", "(o | x | -) #work | +zorg | @home", "!'zzzz'", "P0-5 | -"])
+    # incl. top-level alternatives that overlap (a note satisfying two of them is still ONE matching note)
+    where = rng.choice(["o | x | ~ | < | > | -", "o | -", "- | x", "o", "(o | x | -) #work | +zorg | @home", "!'zzzz'", "P0-5 | -",
+                        "o | P0-9", "o | x | P1-3 | #work", "- | !'zzzz' | o", "#work | +zorg | @home | %bob | -"])
     txt = "S " + (f"count({sel})" if count else sel) + " W " + where
     if orders:
         txt += " O " + " ".join(orders)
@@ -282,6 +284,11 @@ def one_index(ctx, res, rng, job):
                     rows = session._session.exec(to_sql_select(build_zorg_query(q["text"]).where, session._session)).all()
                     keys = [(r.page_path, r.line_no) for r in rows]
                     row_dates = [(r.create_date.strftime("%Y%m%d"), r.modify_date.strftime("%Y%m%d")) for r in rows]
+                if len(set(keys)) != len(keys):
+                    dup = next(k for k in keys if keys.count(k) > 1)
+                    res.failures.append(C.Failure(f"query {q['text']!r}: the note on {dup[0]} line {dup[1]} is returned {keys.count(dup)} times by the WHERE step: a matching note counts once",
+                                                  {"files": files, "query": q, "kind": "duplicate_rows"}))
+                    continue
                 if any(k not in written for k in keys):
                     res.failures.append(C.Failure(f"query {q['text']!r}: the index returns rows {[k for k in keys if k not in written][:2]} that are no notes of the files", {"files": files, "query": q}))
                     continue
